@@ -10,6 +10,7 @@ import DiskfsModel.Proofs.GptCrash
 import DiskfsModel.Proofs.GptWhole
 import DiskfsModel.Proofs.GptCrashFlat
 import DiskfsModel.Proofs.GptGeomCrash
+import DiskfsModel.Proofs.GptGeomFast
 import DiskfsModel.Proofs.GptCrashDegraded
 import DiskfsModel.Generated.GptCrash
 namespace Diskfs.GptCrash.C09
@@ -490,6 +491,14 @@ theorem first_write_atomic_geom (c : Cfg) (hpl : c.pmbrLast = true) (hab : c.arr
           outP (PartTable.read c crc d0 size t.lss).1 ∨
        outP (PartTable.read c crc (crashDev d0 t.lss ws k keep) size t.lss).1 = .gpt pn) :=
   first_write_atomic_flatG c hpl hab crc hcrc d0 t size ws t' hg hpm hw hNoP hNoB k keep
+
+open Diskfs.Gpt in
+/-- the model driver classifies every crash state through `flatReaderGF` (sectors concatenated: linear time) — on the
+    record view of ANY flat device it reads exactly what the reader of the theorems above, `flatReaderG`, reads -/
+theorem record_reader_fast_eq (g : Geo) (size : Nat) (G : g.OK size) (crc : Bytes → Nat) (d : Dev) :
+    GptCrash.read (flatReaderGF crc g) (toDiskG d g) = GptCrash.read (flatReaderG crc g) (toDiskG d g) ∧
+    partRead (flatReaderGF crc g) mbrViewFlat (toDiskG d g) = partRead (flatReaderG crc g) mbrViewFlat (toDiskG d g) :=
+  ⟨read_fast_eq G crc d, partRead_fast_eq G crc mbrViewFlat d⟩
 
 /-! ### what goes wrong WITHOUT `GeomWF`, and on a disk that reads only from its backup copy -/
 
